@@ -72,6 +72,8 @@ Go standard library, x/text and textseg are the parameter `L : StdNum.Lib` (Stdl
 def pStr : Fn.Param := { ty := .string }
 def pStrD : Fn.Param := { ty := .string, allowDynamic := true }
 def spec3 (p q r : Fn.Param) : Fn.Spec := { params := [p, q, r], refine := some refineNN }
+/-- two parameters, no `RefineResult` -/
+def spec2n (p q : Fn.Param) : Fn.Spec := { params := [p, q] }
 
 /-- (harness name, Go variable, declared static type, model for a given library) -/
 def glueTable : List (String × String × String × (StdNum.Lib → Func)) :=
@@ -88,7 +90,8 @@ def glueTable : List (String × String × String × (StdNum.Lib → Func)) :=
    ("regexreplace", "RegexReplaceFunc", "cty.String", fun L => mk (spec3 pStr pStr pStr) .string (StdNum.regexReplaceImpl L)),
    ("split", "SplitFunc", "cty.List(cty.String)", fun L => mk (spec2 pStr pStr) (.list .string) (StdNum.splitImpl L)),
    ("indent", "IndentFunc", "cty.String", fun L => mk (spec2 pNum pStr) .string (StdNum.indentImpl L.nfc)),
-   ("substr", "SubstrFunc", "cty.String", fun L => mk (spec3 pStrD pNumD pNumD) .string (StdNum.substrImpl L.nfc L.clusters))]
+   ("substr", "SubstrFunc", "cty.String", fun L => mk (spec3 pStrD pNumD pNumD) .string (StdNum.substrImpl L.nfc L.clusters)),
+   ("timeadd", "TimeAddFunc", "cty.String", fun L => mk (spec2n pStr pStr) .string (StdNum.timeAddImpl L))]
 
 def glueByName (name : String) : Option (StdNum.Lib → Func) :=
   (glueTable.find? fun e => e.1 == name).map (·.2.2.2)
